@@ -235,7 +235,7 @@ def gen_round3(rng, tier, n):
         for eps in (F(1, 10 ** 20), -F(1, 10 ** 20)):
             cases.append({'kind': 'un', 'op': 'round', 't': str(F(2 * k + 1, 2) + eps)})
     # (b) binary64 round trip on random floats (all exponent ranges)
-    for _ in range(150 * n):
+    for _ in range(100 * n):
         cases.append({'kind': 'frt', 'x': X.rnd_float64(rng).hex()})
     # (c) operands of every Python type through the wrapper dispatch
     kinds = X.EXACT_KINDS + X.REAL_KINDS + X.OTHER_KINDS
@@ -250,7 +250,7 @@ def gen_round3(rng, tier, n):
         cases.append({'kind': 'disp', 'op': 'add', 't': '1/3', 'v': {'k': 'str', 'v': txt}, 'swap': False})
     for o in X.OPAQUE:
         cases.append({'kind': 'disp', 'op': 'mul', 't': '1/3', 'v': {'k': 'opaque', 'v': o}, 'swap': rng.random() < 0.5})
-    for _ in range(450 * n):
+    for _ in range(350 * n):
         v = X.rnd_pyval(rng)
         op = rng.choice(X.DISP_OPS)
         t = rnd_frac(rng, big=True)
@@ -259,7 +259,7 @@ def gen_round3(rng, tier, n):
         swap = rng.random() < 0.5 and _swap_ok(v, op)
         cases.append({'kind': 'disp', 'op': op, 't': str(t), 'v': v, 'swap': swap})
     # (d) numeric hash
-    for q in X.hash_values(rng, 150 * n):
+    for q in X.hash_values(rng, 100 * n):
         cases.append({'kind': 'hashval', 'q': str(q)})
     return cases
 
@@ -351,7 +351,8 @@ def run_impl(case):
         except Exception as e:
             return {'crash': 'harness could not build the operand: %s' % e}
         fn = BINOPS[case['op']][1]
-        return X.observe_binop((lambda: fn(other, t)) if case['swap'] else (lambda: fn(t, other)))
+        return X.observe_binop((lambda: fn(other, t)) if case['swap'] else (lambda: fn(t, other)),
+                               reflecting=case['v']['k'] == 'reflects')
     if k == 'hashval':
         q = F(case['q'])
         return _outcome(lambda: X.hash_obs(q))
